@@ -570,11 +570,32 @@ class Flattener:
         return hoisted + [ast.fix_missing_locations(s)]
 
 
+
+_VOCAB: Dict[int, set] = {}
+
+
+def _vocab(fn) -> set:
+    """identifiers, attribute names and node kinds occurring in the function: a cheap test that a normalisation has nothing to do
+    (cached per function node during one flatten_model pass; dropped whenever a pass changed the function)"""
+    if id(fn.node) in _VOCAB:
+        return _VOCAB[id(fn.node)]
+    out = _VOCAB[id(fn.node)] = set()
+    for n in ast.walk(fn.node):
+        out.add(type(n).__name__)
+        if isinstance(n, ast.Attribute):
+            out.add(n.attr)
+        elif isinstance(n, ast.Name):
+            out.add(n.id)
+    return out
+
+
 def normalise_slices(fn) -> int:
     """`name = slice(a, b[, c])` used only as a subscript index  ->  the literal slice at its uses (in place).
 
     The rules recognise block bounds as literal slices; naming the slice object first is the same access."""
     from .astutil import single_locals
+    if 'slice' not in _vocab(fn):
+        return 0
     defs = single_locals(fn)
     cands = {k: v for k, v in defs.items() if isinstance(v, ast.Call) and isinstance(v.func, ast.Name) and v.func.id == 'slice'
              and 2 <= len(v.args) <= 3 and not v.keywords and not any(isinstance(a, ast.Starred) for a in v.args)}
@@ -643,6 +664,8 @@ def normalise_gathers(fn) -> int:
     between the binding and the use, is replaced by its definition at the uses."""
     from .astutil import single_locals, GatherCanon, _nonzero_mask, const_value
     from .model import norm
+    if not (_vocab(fn) & {'take', 'nonzero', 'flatnonzero', 'where', 'argwhere', 'arange', 'range'}):
+        return 0
     src0 = ast.dump(fn.node)
     defs = single_locals(fn)
 
@@ -822,6 +845,8 @@ def normalise_calls(model, fn) -> int:
     "keyword arguments / explicit defaults" clean-ups, so that rules see one form."""
     from .model import norm
     from .astutil import single_locals
+    if 'Call' not in _vocab(fn):
+        return 0
     src0 = ast.dump(fn.node)
     # ---- (1) functools.partial aliases
     partials = {}
@@ -1003,6 +1028,8 @@ def normalise_dispatch(fn) -> int:
     pure test is replaced by that test.  The callees then go through the ordinary splicing of post-reference helpers."""
     from .astutil import single_locals
     from .model import norm
+    if 'Dict' not in _vocab(fn):
+        return 0
     defs = single_locals(fn)
     tables = {k: v for k, v in defs.items() if isinstance(v, ast.Dict) and v.keys and all(isinstance(x, ast.Constant) for x in v.keys)
               and all(isinstance(x, (ast.Name, ast.Attribute)) for x in v.values) and k not in fn.params}
@@ -1079,6 +1106,8 @@ def normalise_collectors(fn) -> int:
     no other effect (simple assignments to locals that are not read after the loop, no branch, no break), R is a `range`
     / a name that is not rebound, and the collector has no other use."""
     from .model import norm
+    if not ({'For', 'ListComp', 'DictComp'} & _vocab(fn)):
+        return 0
     src0 = ast.dump(fn.node)
 
     def pure_range(e) -> bool:
@@ -1267,25 +1296,25 @@ def flatten_model(model) -> Optional[Flattener]:
     fl.renames = undo_private_renames(model)
     funcs = [f for f in model.all_functions() if f.kind != 'nested']
     new = [f for f in funcs if fl.is_new(f)]
-    fl.slices = 0
-    for f in funcs:
-        fl.slices += normalise_slices(f)
-    fl.gathers = 0
-    for f in funcs:
-        fl.gathers += normalise_gathers(f)
-    fl.calls = 0
-    for f in funcs:
-        fl.calls += normalise_calls(model, f)
-    fl.dispatch = 0
-    for f in funcs:
-        fl.dispatch += normalise_dispatch(f)
-    fl.ifexps = 0
-    for f in funcs:
-        fl.ifexps += normalise_ifexp(f)
+    _VOCAB.clear()
+
+    def run(pass_, *a) -> int:
+        n = 0
+        for f in funcs:
+            r = pass_(*a, f)
+            if r:
+                _VOCAB.pop(id(f.node), None)
+            n += r
+        return n
+    fl.slices = run(normalise_slices)
+    fl.gathers = run(normalise_gathers)
+    fl.calls = run(normalise_calls, model)
+    fl.dispatch = run(normalise_dispatch)
+    fl.ifexps = run(normalise_ifexp)
     fl.collectors = 0
     if not new:
-        for f in funcs:
-            fl.collectors += normalise_collectors(f)
+        fl.collectors = run(normalise_collectors)
+        _VOCAB.clear()
         return fl
     # helpers first (so that a helper calling another helper is flat before it is spliced), then everything else
     for _ in range(3):
@@ -1321,6 +1350,7 @@ def flatten_model(model) -> Optional[Flattener]:
                 f.cls.methods.pop(f.name, None)
             else:
                 f.module.functions.pop(f.name, None)
-    for f in funcs:
-        fl.collectors += normalise_collectors(f)
+    _VOCAB.clear()          # splicing changed the callers
+    fl.collectors = run(normalise_collectors)
+    _VOCAB.clear()
     return fl
